@@ -31,8 +31,10 @@ var propSpecs = map[string]*PropSpec{
 		{"benchunit", "tidy", "Tidy against a reference normaliser written from the documented rule (numerator ns->sec /1e9, MB->B *1e6 per token; substrings and denominators untouched), its idempotence, and agreement of fast paths, slow path and cache — stands in for tidyUnitUncached and the unit tokeniser, which are not under a functional contract"}}},
 	"C05": {ID: "C05", Pkgs: []string{"./benchfmt", "./benchproc"}, BoundedChecks: []boundedSpec{
 		{"benchproc", "extract", "key extraction (/k first segment, /gomaxprocs, absent = empty) against a reference written from the format description, for every name up to a stated length over the alphabet {a b / - = 1}"}}},
-	"C06": {ID: "C06", Pkgs: []string{"./benchproc", "./benchproc/internal/parse"}},
-	"C07": {ID: "C07", Pkgs: []string{"./benchproc", "./benchproc/internal/parse"}},
+	"C06": {ID: "C06", Pkgs: []string{"./benchproc", "./benchproc/internal/parse"}, BoundedChecks: []boundedSpec{
+		{"benchproc", "filtersem", "whole filters against reference boolean semantics per measurement (Test, All, Any, Apply, Match leaves the result untouched), in varied concrete syntax, with measurement counts crossing 32 and 64; fixed-list projections"}}},
+	"C07": {ID: "C07", Pkgs: []string{"./benchproc", "./benchproc/internal/parse"}, BoundedChecks: []boundedSpec{
+		{"benchproc", "filtersyntax", "expressibility of arbitrary strings as quoted words in every term position, unquoted words, the documented rejections, and no panic / positioned errors on every short text over the syntax alphabet — stands in for the recursive-descent parser and the semantic checks in NewFilter/makeProjection, which are not under contract"}}},
 	"C08": {ID: "C08", Pkgs: []string{"./benchproc"}},
 	"C09": {ID: "C09", Pkgs: []string{"./benchproc"}, BoundedChecks: []boundedSpec{
 		{"benchproc", "keyorder", "the documented per-field orders against reference semantics (incl. the fuzzy number parser, which is only under a determinism assumption), first-observation ranks of .config sub-fields, the flattened-field cache, and the order axioms / arrangement independence of SortKeys on concrete key sets"}}},
